@@ -403,6 +403,11 @@ func evalPrepared
   loop 2 invariant ctx != nil && len(ctx.labels) == len(ctx.rows) && $asked == 0
   loop 3 invariant ctx != nil && len(ctx.labels) == len(ctx.rows) && $asked == 0
 
+// starting the sweeper touches only the engine's own start-up state
+extern (*Engine).Start
+  props C15 C19
+  modifies e.ctx, e.cancel, e.started, e.wg
+
 pred candCarries(ctx, symbol) := ctx.candidate != nil && labelMatches(ctx.candLabel, symbol, ctx.subsets)
 
 // A.price in a DEFINE / MEASURES expression: the candidate row answers when it carries the symbol, otherwise the LATEST
